@@ -41,6 +41,8 @@ fn multi_file_layout(n: usize, rng: &mut Rng) -> Layout {
         xor_key: if rng.chance(1, 4) { Some(Bytes(rng.bytes(8))) } else { None },
         magic_mode: 0,
         xor_symlink: false,
+        link_chain: false,
+        side_xor: None,
         extra_files: vec![],
     }
 }
